@@ -421,6 +421,13 @@ const preludeText = `
   ((NodeBottom) (mkNode (ntype Int) (nval Val) (kids (Array Int Node)) (nkids Int)))
 ))
 (declare-datatypes ((Err 0)) (((ErrNil) (ErrSyntax (emsg Str) (eexpr Str) (eoff Int)) (ErrOther (eid Int)))))
+; float64 ordering comparisons are kept abstract (uninterpreted): the code and the specification apply
+; the same operation to the same operands, so no property of the order is needed; this avoids
+; bit-blasting. (Sound: every proof holds for any interpretation, in particular IEEE-754's.)
+(declare-fun f64.lt (F64 F64) Bool)
+(declare-fun f64.leq (F64 F64) Bool)
+(declare-fun f64.gt (F64 F64) Bool)
+(declare-fun f64.geq (F64 F64) Bool)
 (declare-fun gs.len (Str) Int)
 (declare-fun gs.at (Str Int) (_ BitVec 8))
 (declare-fun gs.sub (Str Int Int) Str)
